@@ -342,11 +342,12 @@ func minimiseAndWrite(c *Check, p *drv.Plan, v *drv.Violation, self string) (str
 	}
 	orig := p.Clone()
 	orig.Extra = nil
-	var min *drv.Plan
-	if c.Shrink != nil {
-		min = c.Shrink(c, orig, v)
-	} else {
-		min = genericShrink(c, orig, v, self)
+	// Minimisation re-executes hundreds of candidate plans; it runs in a
+	// process of its own because a candidate may kill the process it runs in
+	// (a panic on a goroutine started by the code under test cannot be recovered).
+	min := shrinkInSubprocess(c, orig, v, self)
+	if min == nil {
+		min = orig
 	}
 	write := func(q *drv.Plan, vv *drv.Violation, suffix string) string {
 		q = q.Clone()
@@ -446,4 +447,67 @@ func ReplayFile(path string, self string, quiet bool) int {
 		fmt.Printf("replay: a different violation occurred: %s (expected %s)\n", got[0].Error(), want.Sig())
 	}
 	return 2
+}
+
+// ShrinkFile is the body of `verif shrink <in> <out>`: it minimises the plan in
+// <in> (whose Expect names the violation to preserve) and writes the result to <out>.
+func ShrinkFile(in, out, self string) int {
+	b, err := os.ReadFile(in)
+	if err != nil {
+		return 2
+	}
+	var p drv.Plan
+	if err := json.Unmarshal(b, &p); err != nil || p.Expect == nil {
+		return 2
+	}
+	c := Get(p.Property)
+	if c == nil {
+		return 2
+	}
+	e := p.Expect
+	want := &drv.Violation{Prop: e.Prop, Oracle: e.Oracle, Symptom: e.Symptom, Class: e.Class, Site: e.Site}
+	p.Expect = nil
+	var min *drv.Plan
+	if c.Shrink != nil {
+		min = c.Shrink(c, &p, want)
+	} else {
+		min = genericShrink(c, &p, want, self)
+	}
+	ob, _ := json.Marshal(min)
+	if err := os.WriteFile(out, ob, 0o644); err != nil {
+		return 2
+	}
+	return 0
+}
+
+func shrinkInSubprocess(c *Check, p *drv.Plan, v *drv.Violation, self string) *drv.Plan {
+	dir, err := os.MkdirTemp("", "verif-shrink-")
+	if err != nil {
+		return nil
+	}
+	defer os.RemoveAll(dir)
+	q := p.Clone()
+	q.Expect = &drv.Expect{Prop: v.Prop, Oracle: v.Oracle, Symptom: v.Symptom, Class: v.Class, Site: v.Site}
+	in, out := filepath.Join(dir, "in.json"), filepath.Join(dir, "out.json")
+	b, _ := json.Marshal(q)
+	if err := os.WriteFile(in, b, 0o644); err != nil {
+		return nil
+	}
+	ctx, cancel := context.WithTimeout(context.Background(), 200*time.Second)
+	defer cancel()
+	cmd := exec.CommandContext(ctx, self, "shrink", in, out)
+	cmd.Env = append(os.Environ(), "GORACE=halt_on_error=1 exitcode=66")
+	if err := cmd.Run(); err != nil {
+		return nil
+	}
+	ob, err := os.ReadFile(out)
+	if err != nil {
+		return nil
+	}
+	var m drv.Plan
+	if err := json.Unmarshal(ob, &m); err != nil {
+		return nil
+	}
+	m.Expect = nil
+	return &m
 }
